@@ -20,6 +20,26 @@ INTERNAL = {
 }
 
 
+def occurs(var, expr) -> bool:
+    """Does the constant `var` occur in `expr`?"""
+    seen = set()
+    todo = [expr]
+    vid = var.get_id()
+    while todo:
+        e = todo.pop()
+        i = e.get_id()
+        if i in seen:
+            continue
+        seen.add(i)
+        if i == vid:
+            return True
+        if z3.is_quantifier(e):
+            todo.append(e.body())
+        elif z3.is_app(e):
+            todo.extend(e.children())
+    return False
+
+
 class Unsupported(Exception):
     """Statement / expression outside the verified subset."""
 
@@ -58,6 +78,10 @@ class State:
         self.use_old = 0
         self.bound: list = []                   # bound variables of enclosing lambdas: (var, guard)
         self.trace: list[str] = []
+        self._typed: set = set()
+        self.nonneg: set = set()                # ids of Int terms known to be >= 0
+        self.fresh: set = set()                 # ids of reference terms allocated by new_ref
+        self.havoc_parent: dict = {}            # id of an alloc-only havoc constant -> array it extends
 
     def copy(self) -> 'State':
         s = State.__new__(State)
@@ -77,6 +101,10 @@ class State:
         s.use_old = self.use_old
         s.bound = list(self.bound)
         s.trace = list(self.trace)
+        s._typed = set(self._typed)
+        s.nonneg = set(self.nonneg)
+        s.fresh = set(self.fresh)
+        s.havoc_parent = dict(self.havoc_parent)
         return s
 
     # -- assumptions ----------------------------------------------------------
@@ -91,7 +119,49 @@ class State:
     def assume(self, fact):
         if isinstance(fact, bool):
             fact = z3.BoolVal(fact)
-        self.pc.append(self._close(fact))
+        fact = self._close(fact)
+        if z3.is_true(fact):
+            return
+        if any(fact.eq(x) for x in self.pc[-40:]):
+            return
+        self.pc.append(fact)
+
+    def assume_type(self, v):
+        """Type invariant of a value read from the heap / an input.  Type invariants are
+        unconditional assumptions about typed locations, so they are not guarded; they are
+        quantified only over the bound variables that occur in them."""
+        facts = type_invariant(v)
+        if not facts:
+            return
+        for fact in facts:
+            for var, guard in reversed(self.bound):
+                if occurs(var, fact):
+                    fact = z3.ForAll([var], z3.Implies(guard, fact))
+            key = fact.get_id()
+            if key in self._typed:
+                continue
+            self._typed.add(key)
+            self.pc.append(fact)
+
+    def is_nonneg(self, t) -> bool:
+        t = z3.simplify(t)
+        if z3.is_int_value(t):
+            return t.as_long() >= 0
+        if t.get_id() in self.nonneg:
+            return True
+        if z3.is_app(t):
+            k = t.decl().kind()
+            if k == z3.Z3_OP_ADD:
+                return all(self.is_nonneg(c) for c in t.children())
+            if k == z3.Z3_OP_MUL:
+                return all(self.is_nonneg(c) for c in t.children())
+            if k == z3.Z3_OP_SELECT and t.arg(0).decl().name().endswith('$len'):
+                return True
+        return False
+
+    def mark_nonneg(self, t):
+        self.nonneg.add(z3.simplify(t).get_id())
+        self.nonneg.add(t.get_id())
 
     def hyps(self) -> list:
         return list(self.pc) + list(self.guards)
@@ -121,6 +191,7 @@ class State:
         r = fresh_int(prefix)
         self.assume(r >= self.alloc)
         self.alloc = r + 1
+        self.fresh.add(r.get_id())
         return r
 
     # -- lists ----------------------------------------------------------------
